@@ -706,13 +706,13 @@ fn try_init_post_decode(assume_no_overflow: bool) {
     }
 }
 #[kani::proof]
-#[kani::unwind(132)]
+#[kani::unwind(66)]
 fn c17_try_init_post_decode() {
     try_init_post_decode(true);
 }
 /// C15: the same with unconstrained offsets: `chunk_data_offset + archive_offset` must not panic
 #[kani::proof]
-#[kani::unwind(132)]
+#[kani::unwind(66)]
 fn c15_try_init_offsets_any() {
     try_init_post_decode(false);
 }
